@@ -27,7 +27,7 @@ func init() {
 					jobs = append(jobs, Job{Harness: "VX_C08_new", Params: P("types", ts, "L", itoa(L), "cfg", cfg)})
 				}
 			}
-			jobs = append(jobs, Job{Harness: "VX_C08_const"})
+			jobs = append(jobs, Job{Harness: "VX_C08_const"}, Job{Harness: "VX_C08_enum_empty"})
 			for n := 0; n <= 3; n++ {
 				jobs = append(jobs, Job{Harness: "VX_C08_name", Params: P("len", itoa(n))})
 			}
@@ -79,6 +79,19 @@ func init() {
 					nn, ppp := 3, 3
 					jobs = append(jobs, Job{Harness: "VX_C03_sort", Params: P("types", ts, "flags", fl, "n", itoa(nn), "P", itoa(ppp))})
 				}
+			}
+			// string keys that may be empty
+			for _, fl := range []string{"--", "r-", "-n", "rn"} {
+				jobs = append(jobs, Job{Harness: "VX_C03_sort", Params: P("types", "string", "flags", fl, "n", "3", "P", "3", "empty", "1")})
+			}
+			jobs = append(jobs, Job{Harness: "VX_C03_sort", Params: P("types", "string,int", "flags", "r---", "n", "3", "P", "3", "empty", "1")})
+			// a key column given twice: the first occurrence decides
+			for _, ts := range []string{"int", "float", "int,float", "string"} {
+				fl := "--"
+				if strings.Contains(ts, ",") {
+					fl = "-n--"
+				}
+				jobs = append(jobs, Job{Harness: "VX_C03_sort", Params: P("types", ts, "flags", fl, "n", "3", "P", "3", "repeat", "1")})
 			}
 			// Sort on frames with a history (sorted before, key replaced / filtered / re-sorted)
 			for _, via := range []string{"apply", "copy", "eval", "filter", "reverse", "same"} {
@@ -194,7 +207,7 @@ func c04jobs(harness string, tier string) []Job {
 			}
 			p := P("types", ts, "n", itoa(nn), "null", nl, "ix", ixj, "agg", "none", "cols", "given", "slots", slots)
 			jobs = append(jobs, Job{Harness: harness, Params: p, MaxPaths: 200000})
-			if harness == "VX_C05_distinct" && (ts == "int" || ts == "string,int") {
+			if harness == "VX_C05_distinct" && (ts == "int" || ts == "string,int" || ts == "float" || ts == "string") {
 				q := P("types", ts, "n", itoa(nn), "null", nl, "ix", ixm, "agg", "none", "cols", "all", "slots", "017")
 				jobs = append(jobs, Job{Harness: harness, Params: q, MaxPaths: 200000})
 			}
@@ -310,6 +323,10 @@ func init() {
 				jobs = append(jobs, Job{Harness: "VX_C06_passthru", Params: P("src", src, "mode", "apply", "args", "2"), MaxPaths: 100000})
 			}
 			jobs = append(jobs, Job{Harness: "VX_C06_apply", Params: P("steps", "fn1:z:a::int>int", "mode", "filtered", "n", "3", "P", "3")})
+			// three rows out of four in every arrangement (non-ascending subsets whose end rows look like a range)
+			for _, s := range []string{"fn2:z:a:b:int", "fn2:z:f:f:float", "fn2:z:c:c:bool", "fn1:z:a::int>int"} {
+				jobs = append(jobs, Job{Harness: "VX_C06_apply", Params: P("steps", s, "mode", "apply", "n", "3", "P", "4")})
+			}
 			// frames that are projections of wider frames (column positions moved)
 			for _, pre := range []string{"drop_first", "select_rev", "drop_mid"} {
 				for _, s := range []string{"fn1:b:b::int>int", "fn2:c:c:c:bool", "const_int:b", "copy:s:e", "fn1:z:b::int>float", "fn1:e:e::string>int;fn1:b:b::int>int", "upper:s:s"} {
@@ -413,7 +430,7 @@ func init() {
 			for _, e := range []string{"( - a b )", "( abs a )", "a", "( u2 ( - a b ) #i )"} {
 				jobs = append(jobs, Job{Harness: "VX_C07_eval", Params: P("expr", e, "dst", "z", "n", "2", "P", "3", "sib", "1")})
 			}
-			jobs = append(jobs, Job{Harness: "VX_C07_ctx"})
+			jobs = append(jobs, Job{Harness: "VX_C07_ctx"}, Job{Harness: "VX_C07_upper"})
 			for _, c := range []string{"unknown_fn", "unknown_fn1", "unknown_col", "unknown_col_const", "type_mismatch", "type_mismatch_const", "no_args", "malformed_list", "malformed_op", "not_a_list", "nested_error", "nested_error_lhs"} {
 				jobs = append(jobs, Job{Harness: "VX_C07_errors", Params: P("case", c)})
 			}
@@ -450,6 +467,9 @@ func init() {
 					}
 				}
 				jobs = append(jobs, Job{Harness: "VX_C09_equals", Params: P("skel", sk, "n", itoa(n2), "P", itoa(p2))})
+				if sk == "se" {
+					jobs = append(jobs, Job{Harness: "VX_C09_equals", Params: P("skel", sk, "n", "2", "P", "2", "shared", "1")})
+				}
 			}
 			for _, c := range []string{"renamed", "reordered", "enum_vs_string", "float_vs_int", "fewer_cols", "fewer_rows"} {
 				jobs = append(jobs, Job{Harness: "VX_C09_mismatch", Params: P("case", c)})
@@ -482,7 +502,7 @@ func init() {
 }
 
 func init() {
-	c10cases := []string{"filter_unknown_col", "filter_unknown_cmp_int", "filter_unknown_cmp_float", "filter_unknown_cmp_bool", "filter_unknown_cmp_string", "filter_unknown_cmp_enum", "filter_cmp_not_string", "filter_fn_wrong_type_int", "filter_fn_wrong_type_string", "filter_fn_wrong_type_enum", "filter_arg_wrong_type_int", "filter_arg_wrong_type_float", "filter_arg_int_for_float", "filter_arg_nan", "filter_arg_wrong_type_bool", "filter_arg_wrong_type_string", "filter_arg_wrong_type_enum", "filter_arg_struct", "filter_arg_nil_cmp_lt", "filter_arg_mixed_list", "filter_arg_list_for_lt", "filter_unknown_arg_col", "filter_arg_col_type_mismatch", "filter_arg_col_type_mismatch2", "filter_fn2_without_col", "filter_enum_unknown_value", "filter_bad_regex", "filter_bad_regex_enum", "and_empty", "or_empty", "not_invalid", "nested_invalid", "inverse_invalid", "sort_unknown", "select_unknown", "slice_bad", "copy_unknown", "copy_self_unknown", "apply_copy_self_unknown", "eval_val_unknown_self", "or_all_rows_then_invalid", "or_complement_then_invalid", "and_none_then_invalid", "empty_frame_invalid_filter", "empty_frame_invalid_apply", "empty_frame_invalid_sort", "copy_badname", "apply_unknown_src", "apply_unknown_src2", "apply_fn_wrong_type", "apply_fn_wrong_type_string", "apply_fn_wrong_type_enum", "apply_fn0_invalid", "apply_fn0_func_wrong", "apply_fn2_mismatched_cols", "apply_fn2_wrong_fn", "apply_fn2_mismatched_string_enum", "apply_unknown_builtin", "apply_unknown_builtin_int", "apply_unknown_builtin2", "apply_bad_dst", "apply_empty_dst", "apply_copy_unknown", "filteredapply_invalid_clause", "filteredapply_invalid_instr", "eval_unknown_fn", "eval_bad_dst", "distinct_unknown", "rownums_bad_name", "groupby_unknown", "empty_frame_groupby_unknown", "empty_frame_distinct_unknown", "empty_frame_groupby_unknown_agg", "filter_bad_regex_twice", "filter_bad_regex_twice_ilike", "aggregate_unknown_col", "aggregate_unknown_fn", "aggregate_fn_wrong_type", "aggregate_fn_wrong_type_string", "aggregate_fn_wrong_type_enum", "aggregate_on_group_col", "aggregate_duplicate", "aggregate_string_builtin"}
+	c10cases := []string{"filter_unknown_col", "filter_unknown_cmp_int", "filter_unknown_cmp_float", "filter_unknown_cmp_bool", "filter_unknown_cmp_string", "filter_unknown_cmp_enum", "filter_cmp_not_string", "filter_fn_wrong_type_int", "filter_fn_wrong_type_string", "filter_fn_wrong_type_enum", "filter_arg_wrong_type_int", "filter_arg_wrong_type_float", "filter_arg_int_for_float", "filter_arg_nan", "filter_arg_wrong_type_bool", "filter_arg_wrong_type_string", "filter_arg_wrong_type_enum", "filter_arg_struct", "filter_arg_nil_cmp_lt", "filter_arg_mixed_list", "filter_arg_list_for_lt", "filter_unknown_arg_col", "filter_arg_col_type_mismatch", "filter_arg_col_type_mismatch2", "filter_fn2_without_col", "filter_enum_unknown_value", "filter_bad_regex", "filter_bad_regex_enum", "and_empty", "or_empty", "not_invalid", "nested_invalid", "inverse_invalid", "sort_unknown", "select_unknown", "slice_bad", "copy_unknown", "copy_self_unknown", "apply_copy_self_unknown", "eval_val_unknown_self", "or_all_rows_then_invalid", "or_complement_then_invalid", "and_none_then_invalid", "empty_frame_invalid_filter", "empty_frame_invalid_apply", "empty_frame_invalid_sort", "copy_badname", "apply_unknown_src", "apply_unknown_src2", "apply_fn_wrong_type", "apply_fn_wrong_type_string", "apply_fn_wrong_type_enum", "apply_fn0_invalid", "apply_fn0_func_wrong", "apply_fn2_mismatched_cols", "apply_fn2_wrong_fn", "apply_fn2_mismatched_string_enum", "apply_unknown_builtin", "apply_unknown_builtin_int", "apply_unknown_builtin2", "apply_bad_dst", "apply_empty_dst", "apply_copy_unknown", "filteredapply_invalid_clause", "filteredapply_invalid_instr", "eval_unknown_fn", "eval_bad_dst", "distinct_unknown", "rownums_bad_name", "groupby_unknown", "empty_frame_groupby_unknown", "empty_frame_distinct_unknown", "empty_frame_groupby_unknown_agg", "filter_bad_regex_twice", "filter_bad_regex_twice_ilike", "apply_second_after_failed_first", "filteredapply_second_after_failed_first", "new_enum_on_int_column", "new_enum_on_const_bool", "aggregate_unknown_col", "aggregate_unknown_fn", "aggregate_fn_wrong_type", "aggregate_fn_wrong_type_string", "aggregate_fn_wrong_type_enum", "aggregate_on_group_col", "aggregate_duplicate", "aggregate_string_builtin"}
 	register(&Property{
 		ID: "C10", Dirs: []string{"root"},
 		Jobs: func(tier string) []Job {
@@ -512,7 +532,7 @@ func init() {
 var c01ops = []string{"filter", "filter_or", "filter_notand", "filter_inv", "sort", "sort2", "slice", "slice_tail", "select", "drop", "copy", "copy_over",
 	"apply_fn1", "apply_fn2", "apply_const", "apply_upper", "filtered_apply", "eval", "rownums", "distinct", "aggregate", "qframes",
 	"copy_y", "rownums_new", "eval_new", "apply_new", "aggregate_nokey", "qframes_aggregate",
-	"grouper_aggregate", "filter_ilike", "filter_like_regex", "eval_ctx", "tosql", "filter_promote", "distinct_float", "groupby_float", "upper_enum", "filter_and_all", "views", "tocsv", "tojson", "string", "equals"}
+	"grouper_aggregate", "filter_ilike", "filter_like_regex", "eval_ctx", "tosql", "filter_promote", "distinct_float", "groupby_float", "upper_enum", "filter_and_all", "aggregate_mutating", "apply_selfcopy_then", "views", "tocsv", "tojson", "string", "equals"}
 
 func c01jobs(tier string, strict bool) []Job {
 	var jobs []Job
@@ -555,9 +575,9 @@ func init() {
 		Jobs:   func(tier string) []Job { return c01jobs(tier, false) },
 		Bounds: func(tier string) string {
 			if tier == "thorough" {
-				return "family {base (P=5 rows, shared column storage via Copy), f0 = permuted+sliced frame with spare index capacity (n=4), results}; numeric cells symbolic, string/enum cells concrete; every one of 43 operations as single step; 6x27 two-step histories applied both to the newest member and to the shared ancestor; 5 three-step histories; every member re-observed (Len, names, types, Err, every cell through the typed views) after every step"
+				return "family {base (P=5 rows, shared column storage via Copy), f0 = permuted+sliced frame with spare index capacity (n=4), results}; numeric cells symbolic, string/enum cells concrete; every one of 45 operations as single step; 6x27 two-step histories applied both to the newest member and to the shared ancestor; 5 three-step histories; every member re-observed (Len, names, types, Err, every cell through the typed views) after every step"
 			}
-			return "family {base (P=4 rows, shared column storage via Copy), f0 = permuted+sliced frame with spare index capacity (n=3), results}; numeric cells symbolic, string/enum cells concrete; every one of 43 operations as single step; 16 two-step histories applied both to the newest member and to the shared ancestor; every member re-observed after every step"
+			return "family {base (P=4 rows, shared column storage via Copy), f0 = permuted+sliced frame with spare index capacity (n=3), results}; numeric cells symbolic, string/enum cells concrete; every one of 45 operations as single step; 16 two-step histories applied both to the newest member and to the shared ancestor; every member re-observed after every step"
 		},
 		Assume:   []string{"frames are built through New/Copy/withIndex/Slice so that column storage and index storage are shared", "user functions uninterpreted; hash uninterpreted"},
 		Outside:  []string{"histories longer than 3; more than 3 physical rows", "Append, Rolling"},
@@ -611,7 +631,7 @@ func init() {
 				jobs = append(jobs, Job{Harness: "VX_C12_infer", Params: P("rows", "1", "emptynull", en), MaxPaths: 500000})
 				jobs = append(jobs, Job{Harness: "VX_C12_infer", Params: P("rows", "2", "emptynull", en), MaxPaths: 500000})
 			}
-			for _, c := range []string{"headers", "ignore_empty", "empty_kept_single_col", "rename_dup", "rename_dup_later", "enum_map_reuse", "missing_alias", "delimiter", "enum_declared", "typed_failure", "column_count", "rowcount_hint"} {
+			for _, c := range []string{"headers", "ignore_empty", "empty_kept_single_col", "rename_dup", "ignore_empty_single_col", "rename_dup_later", "enum_map_reuse", "missing_alias", "delimiter", "enum_declared", "typed_failure", "column_count", "rowcount_hint"} {
 				jobs = append(jobs, Job{Harness: "VX_C12_options", Params: P("case", c), MaxSteps: 80000000})
 			}
 			return jobs
@@ -660,6 +680,10 @@ func init() {
 						}
 					}
 				}
+				// a literal % next to the wildcard (patterns %%x, x%%, %%x%)
+				jobs = append(jobs, Job{Harness: "VX_C18_plain", Params: P("cs", cs, "pre", "true", "post", "false", "np", "1", "nc", "2", "kinds", "2", "lit", "pre"), MaxPaths: 500000})
+				jobs = append(jobs, Job{Harness: "VX_C18_plain", Params: P("cs", cs, "pre", "false", "post", "true", "np", "1", "nc", "2", "kinds", "2", "lit", "post"), MaxPaths: 500000})
+				jobs = append(jobs, Job{Harness: "VX_C18_plain", Params: P("cs", cs, "pre", "true", "post", "true", "np", "0", "nc", "2", "kinds", "2", "lit", "pre"), MaxPaths: 500000})
 				for _, only := range []string{"%", "%%"} {
 					jobs = append(jobs, Job{Harness: "VX_C18_plain", Params: P("cs", cs, "pre", "true", "post", "true", "np", "0", "nc", "1", "kinds", itoa(kinds), "only", only)})
 				}
@@ -745,6 +769,8 @@ func init() {
 				jobs = append(jobs, Job{Harness: "VX_C17_csv_derived", Params: P("D", itoa(D)), MaxSteps: 200000000})
 			}
 			jobs = append(jobs, Job{Harness: "VX_C17_csv_declared", Params: P()})
+			// null stays distinct from every value also when two enum columns with different dictionaries are compared
+			jobs = append(jobs, Job{Harness: "VX_C09_enum_dicts"}, Job{Harness: "VX_C17_slice_sorted"}, Job{Harness: "VX_C08_enum_empty"})
 			return jobs
 		},
 		Bounds: func(tier string) string {
@@ -776,6 +802,7 @@ func init() {
 				add("int,string", 2, 1, "true", en, "false")
 				add("enum,float", 2, 1, "true", en, "false")
 				add("enum", 3, 1, "true", en, "false")
+				jobs = append(jobs, Job{Harness: "VX_C13_roundtrip", Params: P("types", "string,int", "n", "2", "strlen", "1", "header", "true", "emptynull", en, "reorder", "false", "later", "1"), MaxPaths: 300000})
 				add("float,bool", 2, 1, "true", en, "true")
 				add("int", 2, 1, "false", en, "false")
 				jobs = append(jobs, Job{Harness: "VX_C13_roundtrip", Params: P("types", "int,string", "n", "3", "strlen", "1", "header", "true", "emptynull", en, "reorder", "false", "ix", "full"), MaxPaths: 300000})
@@ -822,6 +849,8 @@ func init() {
 			jobs = append(jobs, Job{Harness: "VX_C14_tojson", Params: P("shape", "mixed", "namelen", "0", "n", "2", "strlen", "1"), MaxPaths: 300000})
 			jobs = append(jobs, Job{Harness: "VX_C14_tojson", Params: P("shape", "empty", "namelen", "0", "n", "0", "strlen", "1")})
 			jobs = append(jobs, Job{Harness: "VX_C14_tojson", Params: P("shape", "concrete", "namelen", "0", "n", "1", "strlen", "1"), MaxSteps: 50000000})
+			jobs = append(jobs, Job{Harness: "VX_C14_tojson", Params: P("shape", "digits", "namelen", "0", "n", "1", "strlen", "1"), MaxSteps: 50000000})
+			jobs = append(jobs, Job{Harness: "VX_C14_aggregated"})
 			jobs = append(jobs, Job{Harness: "VX_C14_tojson", Params: P("shape", "big", "namelen", "0", "n", "1", "strlen", "1"), MaxSteps: 400000000})
 			// ReadJSON of what ToJSON wrote (behind the reference decoder)
 			rj := []string{"int,bool", "float", "enum,float", "string", "bool,enum,int,float"}
@@ -949,7 +978,8 @@ func init() {
 				}
 			}
 			jobs = append(jobs, Job{Harness: "VX_C19_sequence", Params: P("d1", "sqlite", "d2", "postgres")}, Job{Harness: "VX_C19_sequence", Params: P("d1", "incr", "d2", "plain")}, Job{Harness: "VX_C19_sequence", Params: P("d1", "mysql", "d2", "sqlite")})
-			jobs = append(jobs, Job{Harness: "VX_C19_precision"})
+			jobs = append(jobs, Job{Harness: "VX_C19_precision"}, Job{Harness: "VX_C19_precision", Params: P("coerce", "1")})
+			jobs = append(jobs, Job{Harness: "VX_C19_tosql_big", Params: P("n", "600"), MaxSteps: 400000000, MaxPaths: 100000})
 			return jobs
 		},
 		Bounds: func(tier string) string {
